@@ -151,7 +151,7 @@ func (c *CoffFormat) Write(ctx *codegen.CodeGenContext, filePath string) error {
 
 		// 補助シンボルの書き込み (ここは変更なし、[]byte を直接書き込む)
 		if entry.Aux != nil {
-			if len(entry.Aux) != coffSymbolSize {
+			if len(entry.Aux) != coffSymbolSize && len(entry.Aux) != coffSymbolSize*int(entry.Main.NumberOfAuxSymbols) {
 				symbolName := string(entry.Main.Name[:bytes.IndexByte(entry.Main.Name[:], 0)])
 				log.Printf("Error: Aux symbol for %s has incorrect size %d, expected %d", symbolName, len(entry.Aux), coffSymbolSize)
 				return fmt.Errorf("aux symbol for %s has incorrect size %d", symbolName, len(entry.Aux))
@@ -313,6 +313,11 @@ func (c *CoffFormat) generateSymbolEntries(ctx *codegen.CodeGenContext, textData
 	}
 	// .file 補助シンボル
 	auxFileBytes := make([]byte, coffSymbolSize)
+	// 18 バイトを超えるファイル名は、必要な数の補助レコードに続けて格納する (切り捨てない)
+	if n := (len(fileName) + coffSymbolSize - 1) / coffSymbolSize; n > 1 && n <= 255 {
+		auxFileBytes = make([]byte, coffSymbolSize*n)
+		fileSymbol.NumberOfAuxSymbols = uint8(n)
+	}
 	copy(auxFileBytes, fileName)
 	allEntries = append(allEntries, SymbolEntry{Main: fileSymbol, Aux: auxFileBytes})
 
